@@ -80,12 +80,19 @@ func getMapTag(tag string) string {
 }
 
 func (g *Generator) extractTopFiels(pkg *packages.Package, st *ast.StructType, tagMap, ptrTypeMap map[string]string, skipped map[string]bool, fields *[]*Field) {
+	//the struct itself and the embedded structs the walk is currently inside of
+	expanding := map[*types.Struct]bool{}
+	if tv, ok := pkg.TypesInfo.Types[st]; ok {
+		if self, ok := tv.Type.(*types.Struct); ok {
+			expanding[self] = true
+		}
+	}
 	for _, f := range st.Fields.List {
 		if len(f.Names) == 0 {
 			//embedded: gorm.Model
 			typ := pkg.TypesInfo.TypeOf(f.Type)
 			name := typeName(typ)
-			expandIfStruct(pkg, g.qualifier, name, 1, typ, tagMap, ptrTypeMap, fields)
+			expandIfStruct(pkg, g.qualifier, name, 1, typ, tagMap, ptrTypeMap, expanding, fields)
 			continue
 		}
 		//named:
@@ -117,7 +124,7 @@ func (g *Generator) extractTopFiels(pkg *packages.Package, st *ast.StructType, t
 	}
 }
 
-func expandIfStruct(pkg *packages.Package, qf types.Qualifier, pre string, depth int32, t types.Type, tagMap, ptrTypeMap map[string]string, fields *[]*Field) {
+func expandIfStruct(pkg *packages.Package, qf types.Qualifier, pre string, depth int32, t types.Type, tagMap, ptrTypeMap map[string]string, expanding map[*types.Struct]bool, fields *[]*Field) {
 	switch tt := t.(type) {
 	case *types.Pointer:
 		e := tt.Elem()
@@ -126,18 +133,26 @@ func expandIfStruct(pkg *packages.Package, qf types.Qualifier, pre string, depth
 				ptrTypeMap[pre] = types.TypeString(n, qf)
 			}
 			//todo: embeded struct?
-			extractStructFields(pkg, qf, pre, depth, st, tagMap, ptrTypeMap, fields)
+			extractStructFields(pkg, qf, pre, depth, st, tagMap, ptrTypeMap, expanding, fields)
 		}
 	case *types.Named:
 		if st, ok := tt.Underlying().(*types.Struct); ok {
-			extractStructFields(pkg, qf, pre, depth, st, tagMap, ptrTypeMap, fields)
+			extractStructFields(pkg, qf, pre, depth, st, tagMap, ptrTypeMap, expanding, fields)
 		}
 	case *types.Struct: //todo: embeded struct?
-		extractStructFields(pkg, qf, pre, depth, tt, tagMap, ptrTypeMap, fields)
+		extractStructFields(pkg, qf, pre, depth, tt, tagMap, ptrTypeMap, expanding, fields)
 	}
 }
 
-func extractStructFields(pkg *packages.Package, qf types.Qualifier, pre string, depth int32, st *types.Struct, tagMap, ptrSet map[string]string, fields *[]*Field) {
+func extractStructFields(pkg *packages.Package, qf types.Qualifier, pre string, depth int32, st *types.Struct, tagMap, ptrSet map[string]string, expanding map[*types.Struct]bool, fields *[]*Field) {
+	//a struct that (directly or through others) embeds a pointer to itself: its fields are
+	//already collected at a smaller depth, where they hide these; expanding again never ends
+	if expanding[st] {
+		return
+	}
+	expanding[st] = true
+	defer delete(expanding, st)
+
 	for i := 0; i < st.NumFields(); i++ {
 		f := st.Field(i)
 		// if !ast.IsExported(f.Name()) {
@@ -146,7 +161,7 @@ func extractStructFields(pkg *packages.Package, qf types.Qualifier, pre string, 
 
 		if f.Embedded() {
 			name := typeName(f.Type())
-			expandIfStruct(pkg, qf, pre+"."+name, depth+1, f.Type(), tagMap, ptrSet, fields)
+			expandIfStruct(pkg, qf, pre+"."+name, depth+1, f.Type(), tagMap, ptrSet, expanding, fields)
 			continue
 		}
 
